@@ -213,6 +213,9 @@ def run_precomputed(case, opf=None):
     return None, opf
 
 
+ASYMMETRIC = ["kullback_leibler", "neyman", "pearson", "k_divergence"]
+
+
 def run_features(case, opf=None):
     from opfython.models.supervised import SupervisedOPF
     import opfython.math.distance as d
@@ -228,6 +231,10 @@ def run_features(case, opf=None):
     # both oracles are evaluated: one defect often breaks the forest (C01) and the prototype clauses (C02) together,
     # and each property's check must see its own oracle's verdict
     e1, e2 = check_forest(opf, Wm, list(Y)), check_prototypes(opf, Wm, list(Y))
+    if case["metric"] in ASYMMETRIC:
+        # forest / prototype oracles presuppose a symmetric dissimilarity (C01 / C02 premises); with a non-symmetric
+        # metric only the prediction rule (C03: max(cost(t), d(t, x)), training sample FIRST) is checked
+        e1 = e2 = None
     if e1 or e2:
         return {"stage": "fit", "error": " | ".join(e for e in (e1, e2) if e),
                 "props": (["C01"] if e1 else []) + (["C02"] if e2 else [])}, opf
@@ -250,11 +257,20 @@ def run_semi(case, opf=None):
     Y = np.asarray(case["Y"], dtype=int)
     U = np.asarray(case["U"], dtype=float).reshape(-1, X.shape[1])
     fn = d.DISTANCES[case["metric"]]
-    if opf is None or not isinstance(opf, SemiSupervisedOPF):
-        opf = SemiSupervisedOPF(distance=case["metric"])
-    opf.fit(X.copy(), Y.copy(), U.copy())
     A = np.vstack([X, U]) if len(U) else X
     n, nl = len(A), len(X)
+    pre = bool(case.get("pre"))
+    if pre:
+        # the same metric supplied as a matrix over the whole dataset, laid out labelled-first (the only layout in which
+        # the positional identifiers of the unlabeled samples, known finding F8, are the dataset rows)
+        opf = SemiSupervisedOPF(distance=case["metric"])
+        opf.pre_computed_distance = True
+        opf.pre_distances = np.asarray([[float(fn(A[a].copy(), A[b].copy())) for b in range(n)] for a in range(n)])
+        opf.fit(X.copy(), Y.copy(), U.copy(), np.arange(nl))
+    else:
+        if opf is None or not isinstance(opf, SemiSupervisedOPF) or opf.pre_computed_distance:
+            opf = SemiSupervisedOPF(distance=case["metric"])      # (a matrix-driven object is not re-used with features)
+        opf.fit(X.copy(), Y.copy(), U.copy())
     sg = opf.subgraph
     if sg.n_nodes != n:
         return {"stage": "semi", "error": "subgraph has %d nodes for %d labeled + %d unlabeled samples" % (sg.n_nodes, nl, len(U)),
@@ -298,7 +314,7 @@ def run_semi(case, opf=None):
             return {"stage": "semi", "error": "empty unlabeled set: conquest order differs from supervised training",
                     "props": ["C15"]}, opf
     Q = np.asarray(case.get("Q") or [], dtype=float).reshape(-1, X.shape[1])
-    if len(Q):
+    if len(Q) and not pre:      # (queries of a matrix-driven model need their own rows in the matrix: C10)
         # prediction with the semi-supervised forest (the inherited predict): exhaustive arg-min over ALL nodes
         preds = opf.predict(Q.copy())
         WQ = [[float(fn(A[a].copy(), Q[b].copy())) for b in range(len(Q))] for a in range(n)]
@@ -390,12 +406,20 @@ def gen_features(rng):
     if sc != 1.0:
         X = [[v * sc for v in row] for row in X]
         Q = [[v * sc for v in row] for row in Q]
-    return {"kind": "features", "X": X, "Y": gen_labels(rng, n), "Q": Q, "scale": sc,
-            "metric": rng.choice(["euclidean", "manhattan", "squared_euclidean", "log_squared_euclidean", "chebyshev"])}
+    metric = rng.choice(["euclidean", "manhattan", "squared_euclidean", "log_squared_euclidean", "chebyshev"])
+    if rng.random() < 0.2:
+        # the statement says "all metrics": non-symmetric ones included (argument order of the arc weight matters)
+        metric = rng.choice(ASYMMETRIC)
+        X = [[round(rng.uniform(0.2, 3), 3) for _ in range(dim)] for _ in range(n)]
+        Q = [[round(rng.uniform(0.2, 3), 3) for _ in range(dim)] for _ in range(rng.randint(1, 3))]
+        sc = 1.0
+    return {"kind": "features", "X": X, "Y": gen_labels(rng, n), "Q": Q, "scale": sc, "metric": metric}
 
 
 def gen_semi(rng):
     c = gen_features(rng)
+    if c["metric"] in ASYMMETRIC:       # (the forest oracle presupposes a symmetric dissimilarity)
+        c["metric"] = "euclidean"
     dim = len(c["X"][0])
     nu = rng.choice([0, 1, 2, 3])
     if rng.random() < 0.5:
@@ -403,7 +427,7 @@ def gen_semi(rng):
     else:
         U = [[round(rng.uniform(0, 5), 3) for _ in range(dim)] for _ in range(nu)]
     U = [[v * c["scale"] for v in row] for row in U]
-    return {"kind": "semi", "X": c["X"], "Y": c["Y"], "U": U, "metric": c["metric"], "Q": c["Q"]}
+    return {"kind": "semi", "X": c["X"], "Y": c["Y"], "U": U, "metric": c["metric"], "Q": c["Q"], "pre": rng.random() < 0.3}
 
 
 def gen_semi_bridge(rng):
@@ -517,7 +541,7 @@ def explore(tier="quick", prop="C01"):
     stats["pre_unmet"] = dict(tw.pre_unmet)
     stats["rule"] = ("real SupervisedOPF.fit/predict on generated cases: n<=6 training samples, pre-computed symmetric "
                      "weight matrices (tie alphabets {0,1,2},{1,2,3}, wide, all-distinct) with shuffled index arrays, "
-                     "lattice/random features with 5 metrics, queries incl. copies of training samples, and "
+                     "lattice/random features with 5 symmetric metrics (+ 4 non-symmetric ones for the prediction rule), queries incl. copies of training samples, and "
                      "fit/predict/re-fit histories on one model object (pre-computed, metric and semi-supervised "
                      "flavours; same and different sizes); oracles: brute-force minimax path costs, all spanning "
                      "trees (Pruefer) for the MST-boundary prototype set, exhaustive arg-min for predictions; "
